@@ -36,6 +36,12 @@ func genRun(g *hx.Gen, fam int) string {
 			"010:" + hx.HexS("slot-ten") + "+03:" + hx.HexS("slot-three"), "0010:" + hx.HexS("ten") + "+8:" + hx.HexS("eight") + "+001:" + hx.HexS("one")})
 	}
 	f["ca"] = g.Pick([]string{"certs:1:1", "certs:1:1", "certs:2:2", "certs:3:1", "certs:2:4", "certs:0:0", "certs:4:0", "plain", "foreign", "mixed:1:0", "mixed:0:1", "mixed:2:1", "mixed:1:0"})
+	if g.Intn(10) == 0 { // long client-declared names
+		f["ru"], f["rh"] = hx.HexS(strings.Repeat("u", []int{40, 64, 217}[g.Intn(3)])), hx.HexS("bastion-"+strings.Repeat("x", []int{30, 49, 200}[g.Intn(3)]))
+	}
+	if g.Intn(12) == 0 {
+		f["ag"] = "honest+le"
+	}
 	switch fam {
 	case 0: // success paths
 	case 1: // authentication failures
@@ -130,6 +136,13 @@ func exhaustiveGS(depth int, wide bool) [][]string {
 		alphabet = append(alphabet, runWith("hs", "gkey:2:-:0", "ca", ca))
 	}
 	alphabet = append(alphabet, runWith("hs", "gkey:3:-:0", "ca", "certs:1:1|certs:1:1|panic"), runWith("hs", "gkey:2:x:0", "ca", "certs:1:1|certs:1:1"), runWith("hs", "gkey:2:-:1", "ca", "certs:1:1|certs:1:1"))
+	// long client-declared user / host names (the same ones in consecutive runs), with an honest
+	// agent and with one that replays its last signature
+	longHost := hx.HexS("bastion-" + strings.Repeat("x", 49))
+	longUser := hx.HexS(strings.Repeat("u", 217))
+	alphabet = append(alphabet, runWith("rh", longHost), runWith("rh", longHost, "ag", "replay"), runWith("ru", longUser, "rh", longHost), runWith("ru", longUser, "rh", longHost, "ag", "replay"))
+	// an agent that ends its listing with the user's own P-384 key under the RA's key comment
+	alphabet = append(alphabet, runWith("ag", "honest+le"), runWith("ag", "honest+le", "ca", "certs:2:2"))
 	// client claims of every kind
 	for _, c := range []string{"ff", "t2s", "sudo", "ver+user", "exts", "sig", "ff+t2s+sudo+ver+user+exts+sig"} {
 		alphabet = append(alphabet, runWith("cl", c))
@@ -142,7 +155,17 @@ func exhaustiveGS(depth int, wide bool) [][]string {
 		alphabet = append(alphabet, runWith("ca", "realdead"), runWith("ca", "realdown"), runWith("ln", hx.HexS("bob")), runWith("hs", "gkeyn:1"), runWith("hs", "gerr:handlerConf"),
 			runWith("ag", "garbage"), runWith("pub", "bad"), runWith("val", "1"), runWith("algo", "2"))
 	}
-	starts := []string{"L1:" + hx.HexS("user key"), "L1:-,c:L2:" + hx.HexS("paranoids.regular-cert") + ",L2:" + hx.HexS("my key"), "-"}
+	var pad []string
+	for i := 0; i < 70; i++ {
+		pad = append(pad, fmt.Sprintf("P%d:%s", i, hx.HexS(fmt.Sprintf("pad %d", i))))
+	}
+	starts := []string{"L1:" + hx.HexS("user key"), "L1:-,c:L2:" + hx.HexS("paranoids.regular-cert") + ",L2:" + hx.HexS("my key"), "-",
+		// a stale certificate of the handler that the agent lists twice
+		"L1:-,cc:L2:" + hx.HexS("paranoids.regular-cert")}
+	if depth <= 2 {
+		// an agent that already holds 70 unrelated identities
+		starts = append(starts, strings.Join(pad, ",")+",L1:-")
+	}
 	var sets [][]string
 	var rec func(prefix []string)
 	rec = func(prefix []string) {
